@@ -37,8 +37,8 @@ type c09harvest struct {
 	// (before the quiescent closure lets garbage collection remove tombstones
 	// and dead array slots); seeds of the hostile phase only
 	mid map[string][]byte
-	ops   map[string][]byte // sha -> encoded operation bytes (ChangeInfo.Operations)
-	vvs   map[string][]byte
+	ops map[string][]byte // sha -> encoded operation bytes (ChangeInfo.Operations)
+	vvs map[string][]byte
 }
 
 func newHarvest() *c09harvest {
